@@ -242,5 +242,129 @@ theorem kvSum_range_singletons [AddCommMonoid α] (c : List α) (n k : Nat) (hc 
   intro j _
   by_cases h : j = k <;> simp [h]
 
+
+theorem length_one_beq (x k : Nat) : ([x] == [k]) = (x == k) := by
+  by_cases h : x = k <;> simp [h]
+
+/-- **Sparse `ttv`** on every branch (scalar, vector kept sparse / densified, multiway kept
+sparse / densified, nothing stored): the result denotes the sum over the fiber. -/
+theorem sparse_ttvCore_spec [CommSemiring α] [DecidableEq α] (S : Sparse α) (hS : S.WF)
+    (pairs : List (Nat × List α))
+    (hnd : (pairs.map (·.1)).Nodup) (hlt : ∀ p ∈ pairs, p.1 < S.shape.length)
+    (hlen : ∀ p ∈ pairs, p.2.length = S.shape.getD p.1 0)
+    (w : Nat → Nat → α) (hw : ∀ p ∈ pairs, ∀ k, w p.1 k = p.2.getD k 0) :
+    ∃ r, S.ttvCore pairs = .ok r ∧ r.shape = Spec.ttvShape S.shape (pairs.map (·.1)) ∧
+      ∀ i, InBounds r.shape i → r.get i = Spec.ttv S.den (pairs.map (·.1)) w i := by
+  set sel := pairs.map (·.1) with hsel
+  set N := S.shape.length with hN
+  set rem := complDims N sel with hrem
+  obtain ⟨g1, g2⟩ := ttv_guards S.shape pairs (fun d => S.shape.getD d 0) hnd hlen
+  have g2' : (sel.eraseDups.length != sel.length) = false := g2
+  set W : List Nat → α := fun k => Spec.selProd sel w k with hW
+  -- the scaled entries, keyed by the remaining coordinates
+  set E' : List (List Nat × α) := S.entries.map fun e => (gather e.1 rem, e.2 * W e.1) with hE'
+  have hinb : ∀ e ∈ S.entries, InBounds S.shape e.1 := by
+    intro e he
+    exact hS.inb e.1 (List.of_mem_zip (a := e.1) (b := e.2) he).1
+  have hspec : ∀ i, Spec.ttv S.den sel w i = kvSum E' i := by
+    intro i
+    rw [hE', ← sparse_fiber_sum S.entries S.shape rem i hinb W]
+    rfl
+  have hnewvals : ((S.subs.zip S.vals).map fun e =>
+      pairs.foldl (fun v p => v * p.2.getD (e.1.getD p.1 0) 0) e.2) = S.entries.map fun e => e.2 * W e.1 := by
+    apply List.map_congr_left
+    intro e _
+    rw [foldl_mul_eq pairs (fun p => p.2.getD (e.1.getD p.1 0) 0), selProd_pairs' pairs w hw]
+  have hsubs : S.subs = S.entries.map (·.1) := (S.entries_keys hS.len).symm
+  have hzip : (S.subs.map fun r => gather r rem).zip (S.entries.map fun e => e.2 * W e.1) = E' := by
+    rw [hsubs, List.map_map]
+    exact zip_map_map S.entries _ _
+  unfold Sparse.ttvCore
+  simp only [← hsel, ← hN, ← hrem, g1, g2', Bool.false_eq_true, if_false, hnewvals]
+  by_cases hr0 : rem.isEmpty = true
+  · -- all modes contracted: a scalar
+    rw [if_pos hr0]
+    have hrem0 : rem = [] := List.isEmpty_iff.1 hr0
+    refine ⟨_, rfl, ?_, ?_⟩
+    · simp [ML.Res.shape, Spec.ttvShape, ← hrem, ← hN, hrem0]
+    · intro i hi
+      have hi0 : i = [] := by
+        simp only [ML.Res.shape] at hi
+        cases i <;> simp_all [InBounds]
+      subst hi0
+      simp only [ML.Res.get]
+      rw [hspec, hE', kvSum_map_entries]
+      have : S.entries.filter (fun e => gather e.1 rem == []) = S.entries := by
+        rw [List.filter_eq_self]; intro e _; rw [hrem0]; rfl
+      rw [this]
+  · rw [if_neg hr0]
+    have hshape : gather S.shape rem = Spec.ttvShape S.shape sel := rfl
+    by_cases hr1 : (rem.length == 1) = true
+    · rw [if_pos hr1]
+      have hrl : rem.length = 1 := by simpa using hr1
+      obtain ⟨m0, hm0⟩ : ∃ m0, rem = [m0] := by
+        match rem, hrl with
+        | [m], _ => exact ⟨m, rfl⟩
+      by_cases hev : (S.entries.map fun e => e.2 * W e.1).isEmpty = true
+      · rw [if_pos hev]
+        refine ⟨_, rfl, hshape, ?_⟩
+        intro i _
+        have hE0 : S.entries = [] := by simpa using hev
+        rw [hspec, hE', hE0]
+        rfl
+      · rw [if_neg hev]
+        set n0 := (gather S.shape rem).getD 0 0 with hn0
+        have hns : gather S.shape rem = [n0] := by rw [hn0, hm0]; rfl
+        set c := ML.accumarray ((S.subs.map fun r => gather r rem).map (·.getD 0 0))
+          (S.entries.map fun e => e.2 * W e.1) n0 List.sum with hc
+        have hclen : c.length = n0 := by simp [hc, ML.accumarray]
+        have hcget : ∀ k, k < n0 → c.getD k 0 = kvSum E' [k] := by
+          intro k hk
+          rw [hc, accumarray_getD _ _ _ _ hk, hsubs, List.map_map, List.map_map, zip_map_map,
+            List.filter_map, List.map_map, hE', kvSum_map_entries]
+          congr 2
+          apply List.filter_congr
+          intro e _
+          simp only [Function.comp_apply, hm0, gather_cons, gather_nil, List.getD_cons_zero]
+          exact (length_one_beq _ _).symm
+        have hiform : ∀ i, InBounds [n0] i → ∃ k, i = [k] ∧ k < n0 := by
+          intro i hi
+          match i, hi with
+          | [k], hi => exact ⟨k, rfl, hi.1⟩
+        by_cases hcnt : 2 * (c.filter fun v => !(v == 0)).length ≤ n0
+        · rw [if_pos hcnt]
+          refine ⟨_, rfl, hshape, ?_⟩
+          intro i hi
+          simp only [ML.Res.shape, fromAggregator_shape] at hi
+          rw [hns] at hi
+          obtain ⟨k, rfl, hk⟩ := hiform i hi
+          simp only [ML.Res.get]
+          rw [fromAggregator_get, kvSum_range_singletons c n0 k hclen hk, hcget k hk, hspec]
+        · rw [if_neg hcnt]
+          refine ⟨_, rfl, hshape, ?_⟩
+          intro i hi
+          simp only [ML.Res.shape] at hi
+          rw [hns] at hi
+          obtain ⟨k, rfl, hk⟩ := hiform i hi
+          simp only [ML.Res.get, Dense.get]
+          rw [hns]
+          simp only [sub2ind, Nat.mul_zero, Nat.add_zero]
+          rw [hcget k hk, hspec]
+    · rw [if_neg hr1]
+      by_cases hnnz : 2 * (ML.fromAggregator (S.subs.map fun r => gather r rem)
+          (S.entries.map fun e => e.2 * W e.1) (gather S.shape rem) List.sum).nnz > numel (gather S.shape rem)
+      · rw [if_pos hnnz]
+        refine ⟨_, rfl, hshape, ?_⟩
+        intro i hi
+        simp only [ML.Res.shape] at hi
+        have hi' : InBounds (gather S.shape rem) i := hi
+        simp only [ML.Res.get]
+        rw [fromAggregator_full_get _ _ _ _ hi', hzip, hspec]
+      · rw [if_neg hnnz]
+        refine ⟨_, rfl, hshape, ?_⟩
+        intro i _
+        simp only [ML.Res.get]
+        rw [fromAggregator_get, hzip, hspec]
+
 end ML
 end Pyttb
